@@ -62,11 +62,15 @@ Section GenBackoff.
         destruct (Z.ltb (max / 2) t) eqn:Eh.
         * (* return c.maxTTL: the model's step yields max, a fixed point *)
           replace (t >? max / 2) with true by (symmetry; apply Z.gtb_lt; apply Z.ltb_lt; exact Eh).
-          cbn [backoff_post]. f_equal. symmetry. apply (iter_max c V).
+          cbn [backoff_post]. f_equal. symmetry. apply iter_max.
         * replace (t >? max / 2) with false by (symmetry; rewrite Z.gtb_ltb; exact Eh).
           apply Z.ltb_ge in Eh.
           rewrite wrap32_small by (unfold two32; lia).
           pose proof (doubling_count_small k t G Etm) as K8.
+          (* however the source spells the doubling (ttl *= 2, ttl = 2 * ttl, ttl += ttl) *)
+          match goal with
+          | |- backoff_post (go_FailureCache_backoff_loop1 _ _ _ _ ?x _) = _ => replace (t * 2) with x by lia
+          end.
           apply (IH (S k)); try lia.
           rewrite Nat2Z.inj_succ, Z.pow_succ_r by lia.
           assert (0 < 2 ^ Z.of_nat k) by (apply Z.pow_pos_nonneg; lia).
@@ -76,7 +80,7 @@ Section GenBackoff.
         apply Z.ltb_ge in Etm. assert (t = max) by lia. subst t.
         cbn [backoff_post T_FailureCache_maxTTL gc].
         replace (max <? max) with false by (symmetry; apply Z.ltb_ge; lia).
-        f_equal. symmetry. apply (iter_max c V).
+        f_equal. symmetry. apply iter_max.
     - (* generation reached streak *)
       apply N.ltb_ge in Egs. replace (N.to_nat (s - g)) with 0%nat by lia.
       cbn [backoff_post backoff_iter T_FailureCache_maxTTL gc].
